@@ -20,12 +20,22 @@ def main():
     diff = os.path.join(src, 'change%s.diff' % k)
     demo = os.path.join(src, 'demo%s.cpp' % k)
     meta = os.path.join(src, 'meta%s.txt' % k)
+    stored = os.path.join(VERIF, 'seeded', '%s-%s' % (prop, k))
+    if not os.path.exists(diff) and os.path.exists(os.path.join(stored, 'patch.diff')):
+        # re-validation of an already stored change
+        os.makedirs('/tmp/seedre', exist_ok=True)
+        diff, demo = '/tmp/seedre/change%s.diff' % k, '/tmp/seedre/demo%s.cpp' % k
+        shutil.copy(os.path.join(stored, 'patch.diff'), diff); shutil.copy(os.path.join(stored, 'demo.cpp'), demo)
+        old = json.load(open(os.path.join(stored, 'meta.json'))).get('what_it_needs', '')
+        meta = '/tmp/seedre/meta%s.txt' % k
+        open(meta, 'w').write(old)
     wt = '/tmp/sv_%s_%s' % (prop, k)
     sh('git -C /repo worktree remove --force %s' % wt)
     rc, out = sh('git -C /repo worktree add --detach %s HEAD' % wt)
     res = {'property': prop, 'change': k, 'source': 'independent sub-agent given only the property text and a scratch worktree'}
     try:
         txt = open(demo).read()
+        txt = re.sub(r'\\\s*\n//\s*', ' ', txt)          # join continuation lines of the build comment
         m = re.search(r'//\s*((?:cd [^\n&]*&&\s*)?g\+\+[^\n]*)', txt)
         cmd = m.group(1).strip()
         # continuation lines of the build command
